@@ -232,3 +232,38 @@ def r4(R):
                     stack.extend(x for x, l in nd.succ if l != 'e')
     if not raises:
         R.violation(node, 'a bound in the future is detected but not refused')
+
+
+@rule('C15.R5', 'connections to other databases opened from a historical '
+      'connection get exactly the same bound', min_instances=1)
+def r5(R):
+    cls = R.prog.cls(CONN)
+    f = R.method(cls, 'get_connection')
+    g, b, F = R.cfg(f, cls, max_depth=0)
+    n = 0
+    for c in walk_local(f.node):
+        if isinstance(c, ast.Call) and isinstance(c.func, ast.Attribute) and \
+                c.func.attr == 'open':
+            n += 1
+            kws = {k.arg: k.value for k in c.keywords}
+            R.instance('Connection.get_connection open()',
+                       before=ast.unparse(kws['before'])
+                       if 'before' in kws else None)
+            where = (f.module.relpath, f.qualname,
+                     'open(... before=...)', c.lineno)
+            if 'before' not in kws:
+                R.violation(where, 'the secondary connection is opened '
+                            'without the historical bound: it is a live, '
+                            'writable connection under a historical one')
+            elif dotted(kws['before']) != ('self', 'before'):
+                R.violation(where, 'the secondary connection is opened with '
+                            '`before=%s`, not with the bound of this '
+                            'connection: under some condition it is a live, '
+                            'writable connection that follows later commits' %
+                            ast.unparse(kws['before']))
+            if 'transaction_manager' in kws and dotted(
+                    kws['transaction_manager']) != (
+                        'self', 'transaction_manager'):
+                R.violation(where, 'the secondary connection does not share '
+                            'the transaction manager')
+    R.require(n >= 1, 'get_connection no longer opens a connection')
